@@ -1,7 +1,11 @@
 (* Model of hio.base.hier.durqing.Durq and dusqing.Dusq (with Hold.inject's
-   sync) on top of the SPEC side of the keyed stores (Model/IoSub.v spec_io):
-   the durable sub-db is a dictionary  queue id -> list of serialised values
-   (DomIoSuber for Durq, DomIoSetSuber for Dusq).
+   sync) over an abstract durable store machine (state S, [sstep] = one call of
+   an IoSuber/IoSetSuber method at the queue's key, [sview] = the values the
+   store returns for the key).  Two instances: the SPEC side of the keyed stores
+   (Model/IoSub.v spec_io: a dictionary  queue id -> list of serialised values;
+   [qstep]/[qrun], used by the theorems of C23) and the LMDB level (step_io over
+   the sorted byte-key db of Model/Lmdb.v; [dstep]/[drun]); C24's refinement
+   theorem makes them agree (Proofs/DurqLayer.v).
    A value is represented by its serialisation (class name, LF, json): that is
    all that can be observed of it.  Python equality of values is a parameter
    [pyeq]: it is coarser than equality of serialisations (Bag(1) == Bag(1.0) ==
@@ -10,29 +14,30 @@ From Hio Require Import Base.Prelude Model.Lmdb Model.IoSub.
 
 Notation val := bytes (only parsing).
 
+Record queue := { mem : list val;      (* _deq / _oset, first in first *)
+                  stale : bool }.
+Definition fresh (pre : list val) : queue := {| mem := pre; stale := true |}.
+
+Inductive qop :=
+| Push (v : val)
+| PushNone
+| Extend (vs : list val)        (* Durq.extend / Dusq.update *)
+| Pull (emptive : bool)
+| Clear
+| Count (v : val)               (* Durq only *)
+| Remove (v : val)              (* Dusq only *)
+| Sync (force : bool)
+| Reopen (pre : list val).      (* store closed and reopened; a NEW queue object preloaded with
+                                   [pre] is injected at the same key (Hold.inject -> sync) *)
+
+Record snap := { sn_res : res rv; sn_mem : list val; sn_store : list bytes }.
+
 Section Durq.
   Variable pyeq : val -> val -> bool.
-
-  (* the durable side: spec dictionary keyed by queue id *)
-  Definition store := N -> list bytes.
-  Definition st_step (set : bool) (s : store) (o : IoSub.op) (q : N) : store * res rv :=
-    spec_io N.eqb set s o q.
-
-  Record queue := { mem : list val;      (* _deq / _oset, first in first *)
-                    stale : bool }.
-  Definition fresh (pre : list val) : queue := {| mem := pre; stale := true |}.
-
-  Inductive qop :=
-  | Push (v : val)
-  | PushNone
-  | Extend (vs : list val)        (* Durq.extend / Dusq.update *)
-  | Pull (emptive : bool)
-  | Clear
-  | Count (v : val)               (* Durq only *)
-  | Remove (v : val)              (* Dusq only *)
-  | Sync (force : bool)
-  | Reopen (pre : list val).      (* store closed and reopened; a NEW queue object preloaded with
-                                     [pre] is injected at the same key (Hold.inject -> sync) *)
+  (* the durable side *)
+  Variable S : Type.
+  Variable st_step : bool -> S -> IoSub.op -> N -> S * res rv.   (* set?, state, method call (its key field is unused), queue id *)
+  Variable sview : S -> N -> list bytes.                         (* _sdb.cnt(key) / _sdb.getIter(key) *)
 
   Definition is_false (r : res rv) : bool :=
     match r with Ok (RBool false) => true | _ => false end.
@@ -51,10 +56,10 @@ Section Durq.
     end.
 
   (* sync(): durable and (stale or force) *)
-  Definition sync (set : bool) (q : N) (s : store) (st : queue) (force : bool)
-    : store * queue * res rv :=
+  Definition gsync (set : bool) (q : N) (s : S) (st : queue) (force : bool)
+    : S * queue * res rv :=
     if stale st || force then
-      match s q with
+      match sview s q with
       | [] =>                                   (* cnt == 0: pin memory *)
         let (s', _) := st_step set s (OPin [] (mem st)) q in
         (s', {| mem := mem st; stale := false |}, Ok (RBool true))
@@ -64,8 +69,8 @@ Section Durq.
     else (s, st, Ok (ROpt None)).
 
   (* one operation of a durable Durq (set = false) or Dusq (set = true) bound to key q *)
-  Definition qstep (set : bool) (q : N) (s : store) (st : queue) (o : qop)
-    : store * queue * res rv :=
+  Definition gstep (set : bool) (q : N) (s : S) (st : queue) (o : qop)
+    : S * queue * res rv :=
     match o with
     | PushNone => (s, st, Ok (RBool false))
     | Push v =>
@@ -126,9 +131,9 @@ Section Durq.
           if is_false r then (s', st', Exc HierErr) else (s', st', Ok (RBool true))
         end
       else (s, st, Exc AttrErr)
-    | Sync force => sync set q s st force
+    | Sync force => gsync set q s st force
     | Reopen pre =>
-      sync set q s (fresh (if set then oset_update [] pre else pre)) false
+      gsync set q s (fresh (if set then oset_update [] pre else pre)) false
     end.
 
   (* several queues of one kind share the sub-db *)
@@ -136,17 +141,14 @@ Section Durq.
   Definition qupd (qs : queues) (q : N) (st : queue) : queues :=
     fun q' => if N.eqb q' q then st else qs q'.
 
-  Record snap := { sn_res : res rv; sn_mem : list val; sn_store : list bytes }.
-
-  Fixpoint qrun (set : bool) (s : store) (qs : queues) (ops : list (N * qop)) : list snap :=
+  Fixpoint grun (set : bool) (s : S) (qs : queues) (ops : list (N * qop)) : list snap :=
     match ops with
     | [] => []
     | (q, o) :: ops' =>
-      let '(s', st', r) := qstep set q s (qs q) o in
-      {| sn_res := r; sn_mem := mem st'; sn_store := s' q |} :: qrun set s' (qupd qs q st') ops'
+      let '(s', st', r) := gstep set q s (qs q) o in
+      {| sn_res := r; sn_mem := mem st'; sn_store := sview s' q |} :: grun set s' (qupd qs q st') ops'
     end.
 
-  Definition store0 : store := fun _ => [].
   Definition queues0 : queues := fun _ => fresh [].
 
   (* ---- SPEC: a FIFO queue (set = false) / an insertion-ordered set with FIFO pull
@@ -187,6 +189,51 @@ Section Durq.
     end.
 End Durq.
 
+(* ---- instance 1: the durable side is the dictionary spec of C24, keyed by queue id ---- *)
+Definition store := N -> list bytes.
+Definition spec_sstep (set : bool) (s : store) (o : IoSub.op) (q : N) : store * res rv :=
+  spec_io N.eqb set s o q.
+Definition spec_view (s : store) (q : N) : list bytes := s q.
+Definition store0 : store := fun _ => [].
+Definition qstep (pyeq : val -> val -> bool) := gstep pyeq store spec_sstep spec_view.
+Definition qrun (pyeq : val -> val -> bool) := grun pyeq store spec_sstep spec_view.
+
+(* ---- instance 2: the durable side is the LMDB-level model of IoSuber / IoSetSuber; queue q is
+   bound to the Hold key [name q] ---- *)
+Definition with_key (o : IoSub.op) (k : list bytes) : IoSub.op :=
+  match o with
+  | OPut _ vs => OPut k vs | OPin _ vs => OPin k vs | OAdd _ v => OAdd k v | OGet _ => OGet k
+  | OGetFirst _ => OGetFirst k | OGetLast _ => OGetLast k | OPop _ => OPop k | ORem _ => ORem k
+  | ORemVal _ v => ORemVal k v | OCnt _ => OCnt k
+  end.
+Definition db_sstep (name : N -> bytes) (set : bool) (d : dbb) (o : IoSub.op) (q : N) : dbb * res rv :=
+  step_io set d (with_key o [name q]).
+Definition db_view (name : N -> bytes) (d : dbb) (q : N) : list bytes :=
+  match getIoVals d (name q) with Ok l => l | Exc _ => [] end.
+Definition dstep (pyeq : val -> val -> bool) (name : N -> bytes) :=
+  gstep pyeq dbb (db_sstep name) (db_view name).
+Definition drun (pyeq : val -> val -> bool) (name : N -> bytes) :=
+  grun pyeq dbb (db_sstep name) (db_view name).
+
+(* ordinals a queue op can consume in the store *)
+Definition qweight (pyeq : val -> val -> bool) (set : bool) (st : queue) (o : qop) : N :=
+  match o with
+  | Push _ => 1
+  | Extend vs => N.of_nat (length vs)
+  | Sync _ => N.of_nat (length (mem st))
+  | Reopen pre => N.of_nat (length (if set then oset_update pyeq [] pre else pre))
+  | _ => 0
+  end.
+(* ... over a history (the queue states are those of the dictionary-level run) *)
+Fixpoint qbudget (pyeq : val -> val -> bool) (set : bool) (s : store) (qs : queues)
+  (ops : list (N * qop)) : N :=
+  match ops with
+  | [] => 0
+  | (q, o) :: ops' =>
+    let '(s', st', _) := qstep pyeq set q s (qs q) o in
+    qweight pyeq set (qs q) o + qbudget pyeq set s' (qupd qs q st') ops'
+  end.
+
 (* The model's history [sns] agrees with the reference history [refs]: after every op the
    memory content is the reference content, THE DURABLE COPY EQUALS IT (same values, same
    order), and the result is the reference result. *)
@@ -213,7 +260,8 @@ Definition pyeq_of (tbl : list (bytes * N)) (a b : bytes) : bool :=
   | _, _ => bytes_eqb a b
   end.
 
-Record case := { c_set : bool;                       (* false: Durq, true: Dusq *)
+Record case := { c_names : list bytes;                (* Hold key of queue 0, 1, ... *)
+                 c_set : bool;                       (* false: Durq, true: Dusq *)
                  c_eq : list (bytes * N);
                  c_ops : list (N * qop);
                  c_obs : list snap }.                (* result, list(q), sdb content after every op *)
@@ -223,9 +271,14 @@ Definition snap_eqb (a b : snap) : bool :=
   list_eqb bytes_eqb (sn_mem a) (sn_mem b) &&
   list_eqb bytes_eqb (sn_store a) (sn_store b).
 
+(* both instances of the model must reproduce the observations: over the dictionary and over
+   the LMDB-level model of the sub-db *)
 Definition check_case (c : case) : bool :=
   list_eqb snap_eqb
-    (qrun (pyeq_of (c_eq c)) (c_set c) store0 queues0 (c_ops c)) (c_obs c).
+    (qrun (pyeq_of (c_eq c)) (c_set c) store0 queues0 (c_ops c)) (c_obs c) &&
+  list_eqb snap_eqb
+    (drun (pyeq_of (c_eq c)) (fun q => nth (N.to_nat q) (c_names c) []) (c_set c) [] queues0 (c_ops c))
+    (c_obs c).
 
 Definition qop_index (o : qop) : nat :=
   match o with
